@@ -44,6 +44,7 @@ func (g GenCfg) GenRule(t *rapid.T, verbs []string) RuleOp {
 			r.SrcIf = uint8(rapid.IntRange(0, 1).Draw(t, "srcif"))
 			if rapid.Bool().Draw(t, "ueip") {
 				r.UEIP = "10.60.0.1"
+				r.UEForm = rapid.SampledFrom([]int{0, 0, 0, 0, 1, 2}).Draw(t, "ueform")
 			}
 			r.FAR = uint32(rapid.IntRange(0, g.FARs).Draw(t, "far"))
 			r.QERs = subset(t, g.QERs, "qer")
